@@ -256,6 +256,15 @@ def native_enumeration(plan, r, repo, tier, prop=None):
     return out
 
 
+def schedule_scenario(jobname):
+    """which scenario family of replay/schedules.py speaks about this job (None: none)"""
+    for prefix, what in (("tee[", "tee"), ("bounded:tee", "tee"), ("lru_cache-overlap", "lru"), ("bounded:lru-s", "lru"), ("cached_property", "cached_property"),
+                         ("bounded:cached_property", "cached_property"), ("decorator", "decorator"), ("bounded:decorator", "decorator")):
+        if jobname.startswith(prefix):
+            return what
+    return None
+
+
 def make_replay(plan, prop, r, ob, repo, replay_dir):
     """find a concrete failing scenario for a failed obligation and replay it on the real code"""
     safe = re.sub(r"[^A-Za-z0-9_.=-]+", "_", f"{prop}-{r['job']}-{ob['kind']}")[:120]
@@ -286,6 +295,20 @@ def make_replay(plan, prop, r, ob, repo, replay_dir):
             rec["confirmed"] = bool(nat and nat.get("confirmed"))
         except Exception as e:
             rec["native_error"] = repr(e)
+    sched = schedule_scenario(r["job"])
+    if not rec["confirmed"] and not r.get("synthetic") and sched:
+        # a failed obligation of a concurrency job: search a concrete failing schedule on the real code (bounded, replay/schedules.py)
+        try:
+            p = subprocess.run(["/venv/bin/python", os.path.join(VERIF, "replay", "schedules.py"), sched, "quick"], capture_output=True, text=True,
+                               timeout=1500, env={**os.environ, "PYTHONPATH": repo})
+            res = json.loads(p.stdout.strip().splitlines()[-1])
+            if res.get("violations"):
+                rec["native_schedule"] = {"scenario_family": sched, "violation": res["violations"][0], "more": res["violations"][1:3], "bound": res.get("bound")}
+                rec["confirmed"] = True
+            else:
+                rec["native_schedule"] = {"scenario_family": sched, "violation": None, "schedules": res.get("schedules"), "bound": res.get("bound")}
+        except Exception as e:
+            rec["native_schedule_error"] = repr(e)
     if not rec["confirmed"] and not r.get("synthetic") and prop in ("C01", "C02", "C06"):
         # no scenario of the engine replayed: search a failing input natively (bounded differential enumeration)
         try:
@@ -333,8 +356,19 @@ def replay(prop, path, repo):
         if nat and nat.get("confirmed"):
             print(f"VIOLATION property={prop} replay={path}")
             return 1
-        if not rec.get("native_differential"):
+        if not (rec.get("native_differential") or rec.get("native_schedule")):
             return 0
+    nv = (rec.get("native") or {}).get("violation")
+    if rec.get("native_schedule") or (isinstance(nv, dict) and "schedule" in nv):
+        sched = (rec.get("native_schedule") or {}).get("scenario_family") or schedule_scenario(rec["job"]) or "tee"
+        p = subprocess.run(["/venv/bin/python", os.path.join(VERIF, "replay", "schedules.py"), sched, "quick"], capture_output=True, text=True,
+                           timeout=1500, env={**os.environ, "PYTHONPATH": repo})
+        res = json.loads(p.stdout.strip().splitlines()[-1])
+        print(json.dumps(res.get("violations", [])[:1], indent=1))
+        if res.get("violations"):
+            print(f"VIOLATION property={prop} replay={path}")
+            return 1
+        return 0
     if rec.get("native_differential") or (rec.get("native") or {}).get("method", "").startswith("native differential"):
         r = {"job": rec["job"], "impl": rec.get("function")}
         nat = native_enumeration(plan, r, repo, "quick", prop)
